@@ -27,9 +27,16 @@ use std::sync::Arc;
 use std::time::{Duration, Instant};
 use varpulis_cluster::coordinator::{DeployResponse, DeployTaskResult};
 use varpulis_cluster::{
-    ClusterError, Coordinator, HeartbeatRequest, MigrationReason, PipelineGroupSpec, PipelinePlacement, WorkerId, WorkerNode, WorkerStatus,
+    Coordinator, HeartbeatRequest, MigrationReason, PipelineGroupSpec, PipelinePlacement, WorkerId, WorkerNode, WorkerStatus,
 };
 use vh::*;
+
+/// Oracle self-test switch (`--perturb <name>`, never set by the driver): deliberately wrong
+/// expectations used to confirm that the monitor fires. Run with `--verif-dir <scratch>`.
+static PERTURB: std::sync::OnceLock<String> = std::sync::OnceLock::new();
+fn perturb(name: &str) -> bool {
+    PERTURB.get().map(|p| p == name).unwrap_or(false)
+}
 
 #[derive(Clone, Copy, Debug, PartialEq, Eq)]
 enum MS {
@@ -90,9 +97,6 @@ impl World {
     }
     fn witness(&self, extra: J) -> J {
         json!({"heartbeat_timeout_ms": self.timeout.as_millis() as u64, "workers": self.names, "history": self.history, "at_failure": extra, "state": self.ages_ms()})
-    }
-    fn someone_unavailable(&self) -> bool {
-        self.names.iter().any(|n| self.model.get(n) != Some(&MS::Ready))
     }
     /// model vs real status of every worker; reports drift with the op kind in the signature
     fn drift(&mut self, op: &str, out: &mut Partial) -> bool {
@@ -157,8 +161,10 @@ fn check_placement(w: &mut World, kind: &str, pipeline: &str, chosen: &str, mode
     };
     let prefix = if kind == "deploy" { "deploy".to_string() } else { format!("migrate/{}", kind) };
     if st != Some(MS::Ready) {
+        // a manual migration names its target: the pin plays no role in the signature
+        let sig = if kind == "manual" { format!("{}/placed-on-{}", prefix, ms_name(st)) } else { format!("{}/{}/placed-on-{}", prefix, pin_class, ms_name(st)) };
         out.violation(
-            &format!("{}/{}/placed-on-{}", prefix, pin_class, ms_name(st)),
+            &sig,
             "a new or migrated pipeline was placed on a worker that is unhealthy, draining or deregistered",
             w.witness(json!({"operation": kind, "pipeline": pipeline, "chosen_worker": chosen, "chosen_worker_status": ms_name(st), "pinned_to": pinned})),
         );
@@ -194,18 +200,7 @@ fn step(w: &mut World, rt: &tokio::runtime::Runtime, rng: &mut Rng, out: &mut Pa
         // ---------------------------------------------------------------- advance virtual time
         0..=17 => {
             let dt = t.mul_f64(*rng.pick(&[0.3, 0.6, 1.2]));
-            for n in &registered {
-                let node = w.coord.workers.get_mut(&WorkerId(n.clone())).unwrap();
-                match node.last_heartbeat.checked_sub(dt) {
-                    Some(x) => node.last_heartbeat = x,
-                    None => {
-                        out.inconclusive("could not back-date last_heartbeat (monotonic clock too small)");
-                        return false;
-                    }
-                }
-            }
-            w.history.push(json!({"op": "advance", "ms": dt.as_millis() as u64}));
-            true
+            do_advance(w, dt, out)
         }
         // ---------------------------------------------------------------- heartbeat
         18..=35 => {
@@ -213,37 +208,7 @@ fn step(w: &mut World, rt: &tokio::runtime::Runtime, rng: &mut Rng, out: &mut Pa
                 return true;
             }
             let n = rng.pick(&w.names).clone();
-            let wid = WorkerId(n.clone());
-            let running = w.coord.workers.get(&wid).map(|x| x.capacity.pipelines_running).unwrap_or(0);
-            let before = w.model.get(&n).copied();
-            let t0 = Instant::now();
-            let r = w.coord.heartbeat(&wid, &HeartbeatRequest { events_processed: 0, pipelines_running: running, pipeline_metrics: vec![] });
-            let t1 = Instant::now();
-            w.history.push(json!({"op": "heartbeat", "worker": n, "status_before": ms_name(before), "result": r.as_ref().map(|_| "ok").unwrap_or("error")}));
-            out.eval();
-            match before {
-                None => true, // unknown worker: nothing demanded
-                Some(st) => {
-                    if r.is_err() {
-                        out.violation("heartbeat/registered/error", "heartbeat of a registered worker is refused", w.witness(json!({"worker": n})));
-                        return false;
-                    }
-                    let hb = w.coord.workers[&wid].last_heartbeat;
-                    if hb < t0 || hb > t1 {
-                        out.violation("heartbeat/timestamp-not-refreshed", "heartbeat did not set last_heartbeat to the time of the call", w.witness(json!({"worker": n})));
-                        return false;
-                    }
-                    if st == MS::Unhealthy {
-                        w.model.insert(n.clone(), MS::Ready);
-                        if real_status(&w.coord, &n) != Some(MS::Ready) {
-                            out.violation("heartbeat/unhealthy/not-restored", "a heartbeat from an unhealthy worker did not make it ready again", w.witness(json!({"worker": n, "observed": ms_name(real_status(&w.coord, &n))})));
-                            return false;
-                        }
-                        out.add("recoveries", 1);
-                    }
-                    !w.drift("heartbeat", out)
-                }
-            }
+            do_heartbeat(w, &n, out)
         }
         // ---------------------------------------------------------------- sweep (+ failover as in main.rs) / boundary probe
         36..=55 => {
@@ -264,65 +229,8 @@ fn step(w: &mut World, rt: &tokio::runtime::Runtime, rng: &mut Rng, out: &mut Pa
                 }
                 w.history.push(json!({"op": "set-age", "worker": n, "age_ms": age.as_millis() as u64}));
             }
-            let pre: Vec<(String, Instant)> = registered.iter().map(|n| (n.clone(), w.coord.workers[&WorkerId(n.clone())].last_heartbeat)).collect();
-            let model_before = w.model.clone();
-            let t0 = Instant::now();
-            let res = w.coord.health_sweep();
-            let t1 = Instant::now();
-            let marked: BTreeSet<String> = res.workers_marked_unhealthy.iter().map(|x| x.0.clone()).collect();
-            out.eval();
-            let mut ages = BTreeMap::new();
-            for (n, hb) in &pre {
-                let lo = t0.saturating_duration_since(*hb);
-                let hi = t1.saturating_duration_since(*hb);
-                ages.insert(n.clone(), json!({"age_lo_ms": lo.as_millis() as u64, "age_hi_ms": hi.as_millis() as u64, "status_before": ms_name(model_before.get(n).copied())}));
-            }
-            w.history.push(json!({"op": "sweep", "ages": ages, "marked_unhealthy": marked}));
-            for (n, hb) in &pre {
-                if model_before.get(n) != Some(&MS::Ready) {
-                    continue;
-                }
-                let lo = t0.saturating_duration_since(*hb);
-                let hi = t1.saturating_duration_since(*hb);
-                let is_marked = marked.contains(n);
-                out.add("sweep_decisions", 1);
-                if lo > t {
-                    if !is_marked {
-                        out.violation("sweep/stale-ready/not-marked", "a ready worker whose last heartbeat is older than the timeout was not marked unhealthy by the sweep", w.witness(json!({"worker": n, "age_lo_ms": lo.as_millis() as u64})));
-                        return false;
-                    }
-                } else if hi <= t {
-                    if is_marked {
-                        out.violation("sweep/fresh-ready/marked-early", "a ready worker was marked unhealthy although its last heartbeat is not older than the timeout", w.witness(json!({"worker": n, "age_hi_ms": hi.as_millis() as u64})));
-                        return false;
-                    }
-                } else {
-                    w.undetermined += 1;
-                    out.add("sweep_undetermined", 1);
-                }
-                if is_marked {
-                    w.model.insert(n.clone(), MS::Unhealthy);
-                    w.unhealthy_transitions += 1;
-                    out.add("unhealthy_transitions", 1);
-                    if probe {
-                        out.add("boundary_probes_marked", 1);
-                    }
-                } else if probe {
-                    out.add("boundary_probes_unmarked", 1);
-                }
-            }
-            if w.drift("sweep", out) {
-                return false;
-            }
-            // automatic failover for newly unhealthy workers (main.rs health loop)
-            if !marked.is_empty() && rng.chance(3, 4) {
-                for n in marked {
-                    if !auto_migrate(w, rt, "failover", &n, out) {
-                        return false;
-                    }
-                }
-            }
-            true
+            let failover = rng.chance(3, 4);
+            do_sweep(w, rt, probe, failover, out)
         }
         // ---------------------------------------------------------------- status change
         56..=62 => {
@@ -331,9 +239,7 @@ fn step(w: &mut World, rt: &tokio::runtime::Runtime, rng: &mut Rng, out: &mut Pa
             }
             let n = rng.pick(&registered).clone();
             let (st, ms) = if rng.chance(2, 3) { (WorkerStatus::Draining, MS::Draining) } else { (WorkerStatus::Unhealthy, MS::Unhealthy) };
-            w.coord.workers.get_mut(&WorkerId(n.clone())).unwrap().status = st;
-            w.model.insert(n.clone(), ms);
-            w.history.push(json!({"op": "set-status", "worker": n, "status": ms_name(Some(ms))}));
+            set_status(w, &n, st, ms);
             true
         }
         // ---------------------------------------------------------------- deregister / register
@@ -375,65 +281,8 @@ fn step(w: &mut World, rt: &tokio::runtime::Runtime, rng: &mut Rng, out: &mut Pa
                 };
                 pipelines.push(PipelinePlacement { name: format!("p{}", i), source: "stream S = E".into(), worker_affinity: aff, replicas: 1 + rng.below(2), partition_key: None });
             }
-            w.uid += 1;
-            let spec = PipelineGroupSpec { name: format!("{}-g{}", w.tag, w.uid), pipelines, routes: vec![] };
-            let model_before = w.model.clone();
-            let spec_json = json!(spec.pipelines.iter().map(|p| json!({"name": p.name, "affinity": p.worker_affinity, "replicas": p.replicas})).collect::<Vec<_>>());
-            out.eval();
-            match w.coord.plan_deploy_group(&spec) {
-                Err(e) => {
-                    w.history.push(json!({"op": "deploy", "pipelines": spec_json, "plan": format!("error: {e}")}));
-                    // a pinned pipeline whose pinned worker is available must be placeable
-                    for p in &spec.pipelines {
-                        if let Some(a) = &p.worker_affinity {
-                            if model_before.get(a) == Some(&MS::Ready) && w.under_capacity(a, 1) {
-                                out.violation("deploy/pinned-available/plan-error", "deploy planning fails although the pinned worker of a pipeline is registered, ready and under capacity", w.witness(json!({"pipeline": p.name, "pinned_to": a, "error": e.to_string()})));
-                                return false;
-                            }
-                        }
-                    }
-                    out.add("deploy_plan_errors", 1);
-                    true
-                }
-                Ok(plan) => {
-                    let tasks_json: Vec<J> = plan.tasks.iter().map(|t| json!({"replica": t.replica_name, "worker": t.worker_id.0})).collect();
-                    w.history.push(json!({"op": "deploy", "pipelines": spec_json, "plan": tasks_json}));
-                    for t in &plan.tasks {
-                        let aff = spec.pipelines.iter().find(|p| p.name == t.pipeline_name).and_then(|p| p.worker_affinity.clone());
-                        let demand = aff.as_ref().map(|a| model_before.get(a) == Some(&MS::Ready) && w.under_capacity(a, 1)).unwrap_or(false);
-                        if !check_placement(w, "deploy", &t.replica_name, &t.worker_id.0.clone(), &model_before, aff.as_deref(), demand, out) {
-                            return false;
-                        }
-                    }
-                    // commit with fabricated results (one failure now and then)
-                    let fail_idx = if rng.chance(1, 5) { Some(rng.below(plan.tasks.len().max(1))) } else { None };
-                    let results: Vec<DeployTaskResult> = plan
-                        .tasks
-                        .iter()
-                        .enumerate()
-                        .map(|(i, t)| {
-                            w.uid += 1;
-                            DeployTaskResult {
-                                replica_name: t.replica_name.clone(),
-                                pipeline_name: t.pipeline_name.clone(),
-                                worker_id: t.worker_id.clone(),
-                                worker_address: t.worker_address.clone(),
-                                worker_api_key: t.worker_api_key.clone(),
-                                replica_count: t.replica_count,
-                                outcome: if Some(i) == fail_idx { Err("HTTP 500 - scripted".into()) } else { Ok(DeployResponse { id: format!("{}-d{}", w.tag, w.uid), name: t.replica_name.clone(), status: "running".into() }) },
-                            }
-                        })
-                        .collect();
-                    match w.coord.commit_deploy_group(plan, results) {
-                        Ok(gid) => w.groups.push(gid),
-                        Err(e) => {
-                            out.inconclusive(&format!("commit_deploy_group failed: {e}"));
-                            return false;
-                        }
-                    }
-                    !w.drift("deploy", out)
-                }
-            }
+            let fail_idx = if rng.chance(1, 5) { Some(rng.below(8)) } else { None };
+            do_deploy(w, pipelines, fail_idx, out)
         }
         // ---------------------------------------------------------------- manual migrate
         _ => {
@@ -459,7 +308,8 @@ fn step(w: &mut World, rt: &tokio::runtime::Runtime, rng: &mut Rng, out: &mut Pa
                 Ok(plan) => {
                     let aff = w.affinity_of(&gid, &pname);
                     if !check_placement(w, "manual", &pname, &target, &model_before, aff.as_deref(), false, out) {
-                        return false;
+                        // violation recorded; the refused-by-the-oracle migration is not committed and the history goes on
+                        return true;
                     }
                     w.uid += 1;
                     let id = format!("{}-m{}", w.tag, w.uid);
@@ -469,6 +319,254 @@ fn step(w: &mut World, rt: &tokio::runtime::Runtime, rng: &mut Rng, out: &mut Pa
             }
         }
     }
+}
+
+fn do_advance(w: &mut World, dt: Duration, out: &mut Partial) -> bool {
+    let registered: Vec<String> = w.names.iter().filter(|n| w.model.contains_key(*n)).cloned().collect();
+    for n in &registered {
+        let node = w.coord.workers.get_mut(&WorkerId(n.clone())).unwrap();
+        match node.last_heartbeat.checked_sub(dt) {
+            Some(x) => node.last_heartbeat = x,
+            None => {
+                out.inconclusive("could not back-date last_heartbeat (monotonic clock too small)");
+                return false;
+            }
+        }
+    }
+    w.history.push(json!({"op": "advance", "ms": dt.as_millis() as u64}));
+    true
+}
+
+fn do_heartbeat(w: &mut World, n: &str, out: &mut Partial) -> bool {
+    let n = n.to_string();
+    let wid = WorkerId(n.clone());
+    let running = w.coord.workers.get(&wid).map(|x| x.capacity.pipelines_running).unwrap_or(0);
+    let before = w.model.get(&n).copied();
+    let t0 = Instant::now();
+    let r = w.coord.heartbeat(&wid, &HeartbeatRequest { events_processed: 0, pipelines_running: running, pipeline_metrics: vec![] });
+    let t1 = Instant::now();
+    w.history.push(json!({"op": "heartbeat", "worker": n, "status_before": ms_name(before), "result": r.as_ref().map(|_| "ok").unwrap_or("error")}));
+    out.eval();
+    match before {
+        None => true, // unknown worker: nothing demanded
+        Some(st) => {
+            if r.is_err() {
+                out.violation("heartbeat/registered/error", "heartbeat of a registered worker is refused", w.witness(json!({"worker": n})));
+                return false;
+            }
+            let hb = w.coord.workers[&wid].last_heartbeat;
+            if hb < t0 || hb > t1 {
+                out.violation("heartbeat/timestamp-not-refreshed", "heartbeat did not set last_heartbeat to the time of the call", w.witness(json!({"worker": n})));
+                return false;
+            }
+            if st == MS::Unhealthy && !perturb("heartbeat-does-not-restore") {
+                w.model.insert(n.clone(), MS::Ready);
+                if real_status(&w.coord, &n) != Some(MS::Ready) {
+                    out.violation("heartbeat/unhealthy/not-restored", "a heartbeat from an unhealthy worker did not make it ready again", w.witness(json!({"worker": n, "observed": ms_name(real_status(&w.coord, &n))})));
+                    return false;
+                }
+                out.add("recoveries", 1);
+            }
+            !w.drift("heartbeat", out)
+        }
+    }
+}
+
+fn do_sweep(w: &mut World, rt: &tokio::runtime::Runtime, probe: bool, failover: bool, out: &mut Partial) -> bool {
+    let t = if perturb("sweep-half-timeout") { w.timeout / 2 } else { w.timeout };
+    let registered: Vec<String> = w.names.iter().filter(|n| w.model.contains_key(*n)).cloned().collect();
+    let pre: Vec<(String, Instant)> = registered.iter().map(|n| (n.clone(), w.coord.workers[&WorkerId(n.clone())].last_heartbeat)).collect();
+    let model_before = w.model.clone();
+    let t0 = Instant::now();
+    let res = w.coord.health_sweep();
+    let t1 = Instant::now();
+    let marked: BTreeSet<String> = res.workers_marked_unhealthy.iter().map(|x| x.0.clone()).collect();
+    out.eval();
+    let mut ages = BTreeMap::new();
+    for (n, hb) in &pre {
+        let lo = t0.saturating_duration_since(*hb);
+        let hi = t1.saturating_duration_since(*hb);
+        ages.insert(n.clone(), json!({"age_lo_ms": lo.as_millis() as u64, "age_hi_ms": hi.as_millis() as u64, "status_before": ms_name(model_before.get(n).copied())}));
+    }
+    w.history.push(json!({"op": "sweep", "ages": ages, "marked_unhealthy": marked}));
+    for (n, hb) in &pre {
+        if model_before.get(n) != Some(&MS::Ready) {
+            continue;
+        }
+        let lo = t0.saturating_duration_since(*hb);
+        let hi = t1.saturating_duration_since(*hb);
+        let is_marked = marked.contains(n);
+        out.add("sweep_decisions", 1);
+        if lo > t {
+            if !is_marked {
+                out.violation("sweep/stale-ready/not-marked", "a ready worker whose last heartbeat is older than the timeout was not marked unhealthy by the sweep", w.witness(json!({"worker": n, "age_lo_ms": lo.as_millis() as u64})));
+                return false;
+            }
+        } else if hi <= t {
+            if is_marked {
+                out.violation("sweep/fresh-ready/marked-early", "a ready worker was marked unhealthy although its last heartbeat is not older than the timeout", w.witness(json!({"worker": n, "age_hi_ms": hi.as_millis() as u64})));
+                return false;
+            }
+        } else {
+            w.undetermined += 1;
+            out.add("sweep_undetermined", 1);
+        }
+        if is_marked {
+            w.model.insert(n.clone(), MS::Unhealthy);
+            w.unhealthy_transitions += 1;
+            out.add("unhealthy_transitions", 1);
+            if probe {
+                out.add("boundary_probes_marked", 1);
+            }
+        } else if probe {
+            out.add("boundary_probes_unmarked", 1);
+        }
+    }
+    if w.drift("sweep", out) {
+        return false;
+    }
+    // automatic failover for newly unhealthy workers (main.rs health loop)
+    if !marked.is_empty() && failover {
+        for n in marked {
+            if !auto_migrate(w, rt, "failover", &n, out) {
+                return false;
+            }
+        }
+    }
+    true
+}
+
+fn do_deploy(w: &mut World, pipelines: Vec<PipelinePlacement>, fail_idx: Option<usize>, out: &mut Partial) -> bool {
+    w.uid += 1;
+    let spec = PipelineGroupSpec { name: format!("{}-g{}", w.tag, w.uid), pipelines, routes: vec![] };
+    let model_before = w.model.clone();
+    let spec_json = json!(spec.pipelines.iter().map(|p| json!({"name": p.name, "affinity": p.worker_affinity, "replicas": p.replicas})).collect::<Vec<_>>());
+    out.eval();
+    match w.coord.plan_deploy_group(&spec) {
+        Err(e) => {
+            w.history.push(json!({"op": "deploy", "pipelines": spec_json, "plan": format!("error: {e}")}));
+            // a pinned pipeline whose pinned worker is available must be placeable
+            for p in &spec.pipelines {
+                if let Some(a) = &p.worker_affinity {
+                    if model_before.get(a) == Some(&MS::Ready) && w.under_capacity(a, 1) {
+                        out.violation("deploy/pinned-available/plan-error", "deploy planning fails although the pinned worker of a pipeline is registered, ready and under capacity", w.witness(json!({"pipeline": p.name, "pinned_to": a, "error": e.to_string()})));
+                        return false;
+                    }
+                }
+            }
+            out.add("deploy_plan_errors", 1);
+            true
+        }
+        Ok(plan) => {
+            let tasks_json: Vec<J> = plan.tasks.iter().map(|t| json!({"replica": t.replica_name, "worker": t.worker_id.0})).collect();
+            w.history.push(json!({"op": "deploy", "pipelines": spec_json, "plan": tasks_json}));
+            for t in &plan.tasks {
+                let aff = spec.pipelines.iter().find(|p| p.name == t.pipeline_name).and_then(|p| p.worker_affinity.clone());
+                let demand = aff.as_ref().map(|a| (model_before.get(a) == Some(&MS::Ready) || (perturb("pin-binds-always") && model_before.contains_key(a))) && w.under_capacity(a, 1)).unwrap_or(false);
+                // a violation is recorded; the history goes on (the state stays consistent)
+                check_placement(w, "deploy", &t.replica_name, &t.worker_id.0.clone(), &model_before, aff.as_deref(), demand, out);
+            }
+            // commit with fabricated results (one failure now and then)
+            let ntasks = plan.tasks.len().max(1);
+            let fail_idx = fail_idx.map(|f| f % ntasks);
+            let results: Vec<DeployTaskResult> = plan
+                .tasks
+                .iter()
+                .enumerate()
+                .map(|(i, t)| {
+                    w.uid += 1;
+                    DeployTaskResult {
+                        replica_name: t.replica_name.clone(),
+                        pipeline_name: t.pipeline_name.clone(),
+                        worker_id: t.worker_id.clone(),
+                        worker_address: t.worker_address.clone(),
+                        worker_api_key: t.worker_api_key.clone(),
+                        replica_count: t.replica_count,
+                        outcome: if Some(i) == fail_idx { Err("HTTP 500 - scripted".into()) } else { Ok(DeployResponse { id: format!("{}-d{}", w.tag, w.uid), name: t.replica_name.clone(), status: "running".into() }) },
+                    }
+                })
+                .collect();
+            match w.coord.commit_deploy_group(plan, results) {
+                Ok(gid) => w.groups.push(gid),
+                Err(e) => {
+                    out.inconclusive(&format!("commit_deploy_group failed: {e}"));
+                    return false;
+                }
+            }
+            !w.drift("deploy", out)
+        }
+    }
+}
+
+fn set_status(w: &mut World, n: &str, st: WorkerStatus, ms: MS) {
+    w.coord.workers.get_mut(&WorkerId(n.to_string())).unwrap().status = st;
+    w.model.insert(n.to_string(), ms);
+    w.history.push(json!({"op": "set-status", "worker": n, "status": ms_name(Some(ms))}));
+}
+
+fn new_world(names: Vec<String>, mocks: &[MockWorker], timeout: Duration, tag: &str) -> World {
+    let addr: BTreeMap<String, String> = names.iter().enumerate().map(|(i, n)| (n.clone(), mocks[i].address.clone())).collect();
+    let mut coord = Coordinator::new();
+    coord.heartbeat_timeout = timeout;
+    World {
+        coord,
+        model: BTreeMap::new(),
+        names,
+        addr,
+        timeout,
+        history: vec![],
+        groups: vec![],
+        unhealthy_transitions: 0,
+        placements_while_unavailable: 0,
+        placements_checked: 0,
+        undetermined: 0,
+        uid: 0,
+        tag: tag.to_string(),
+    }
+}
+
+/// Deterministic scenario: a pipeline pinned to w1 is deployed while w1 is unhealthy (so it falls
+/// back to another worker), w1 recovers by heartbeat, then the worker hosting the pipeline is
+/// drained / fails. The pinned worker is ready, under capacity and not the least loaded one.
+fn scripted_pinned_return(rt: &tokio::runtime::Runtime, mocks: &[MockWorker], kind: &str, out: &mut Partial) {
+    let names: Vec<String> = (0..3).map(|i| format!("w{}", i)).collect();
+    let mut w = new_world(names.clone(), mocks, Duration::from_secs(5), &format!("scripted-{}", kind));
+    for n in &names {
+        register(&mut w, n, 100);
+        w.history.push(json!({"op": "register", "worker": n, "max_pipelines": 100}));
+    }
+    let pin = |name: &str, replicas: usize| PipelinePlacement { name: name.into(), source: "stream S = E".into(), worker_affinity: Some("w1".into()), replicas, partition_key: None };
+    if !do_deploy(&mut w, vec![pin("q", 2)], None, out) {
+        return;
+    }
+    set_status(&mut w, "w1", WorkerStatus::Unhealthy, MS::Unhealthy);
+    if !do_deploy(&mut w, vec![pin("p", 1)], None, out) {
+        return;
+    }
+    let host = match w.all_placements().iter().find(|(k, _)| k.1 == "p") {
+        Some((_, h)) => h.clone(),
+        None => {
+            out.inconclusive("scripted scenario: pipeline p was not placed");
+            return;
+        }
+    };
+    if !do_heartbeat(&mut w, "w1", out) {
+        return;
+    }
+    if kind == "drain" {
+        auto_migrate(&mut w, rt, "drain", &host, out);
+    } else {
+        if !do_advance(&mut w, Duration::from_millis(6000), out) {
+            return;
+        }
+        for n in &names {
+            if *n != host && !do_heartbeat(&mut w, n, out) {
+                return;
+            }
+        }
+        do_sweep(&mut w, rt, false, true, out);
+    }
+    out.add("scripted_scenarios", 1);
 }
 
 /// failover(worker) / drain(worker) / rebalance: run the real async operation against the mock
@@ -542,9 +640,7 @@ fn auto_migrate(w: &mut World, rt: &tokio::runtime::Runtime, kind: &str, worker:
             Some((a, d)) => (Some(a.as_str()), *d),
             None => (None, false),
         };
-        if !check_placement(w, kind, &k.1, new, &model_before, pin, demand, out) {
-            return false;
-        }
+        check_placement(w, kind, &k.1, new, &model_before, pin, demand, out);
     }
     !w.drift(kind, out)
 }
@@ -552,25 +648,8 @@ fn auto_migrate(w: &mut World, rt: &tokio::runtime::Runtime, kind: &str, worker:
 fn run_case(rt: &tokio::runtime::Runtime, mocks: &[MockWorker], tag: &str, rng: &mut Rng, out: &mut Partial) {
     let nworkers = 1 + rng.below(4);
     let names: Vec<String> = (0..nworkers).map(|i| format!("w{}", i)).collect();
-    let addr: BTreeMap<String, String> = names.iter().enumerate().map(|(i, n)| (n.clone(), mocks[i].address.clone())).collect();
     let timeout = Duration::from_millis(*rng.pick(&[2000u64, 3000, 5000, 10_000]));
-    let mut coord = Coordinator::new();
-    coord.heartbeat_timeout = timeout;
-    let mut w = World {
-        coord,
-        model: BTreeMap::new(),
-        names: names.clone(),
-        addr,
-        timeout,
-        history: vec![],
-        groups: vec![],
-        unhealthy_transitions: 0,
-        placements_while_unavailable: 0,
-        placements_checked: 0,
-        undetermined: 0,
-        uid: 0,
-        tag: tag.to_string(),
-    };
+    let mut w = new_world(names.clone(), mocks, timeout, tag);
     for n in &names {
         if rng.chance(5, 6) {
             let max = *rng.pick(&[2usize, 3, 100, 100, 100]);
@@ -587,7 +666,6 @@ fn run_case(rt: &tokio::runtime::Runtime, mocks: &[MockWorker], tag: &str, rng: 
     if w.unhealthy_transitions >= 1 && w.placements_while_unavailable >= 1 {
         out.nontrivial(&w.history.iter().map(|h| h.to_string()).collect::<Vec<_>>());
     }
-    let _ = w.someone_unavailable();
     if out.samples.len() < 2 && w.unhealthy_transitions >= 1 && w.placements_checked >= 2 {
         out.sample(json!({"heartbeat_timeout_ms": timeout.as_millis() as u64, "workers": names, "history": w.history}));
     }
@@ -601,6 +679,9 @@ fn main() {
     let args = Args::parse();
     install_quiet_panic_hook();
     watchdog("C33", args.pick(600, 3600));
+    if let Some(p) = args.opt("--perturb") {
+        let _ = PERTURB.set(p);
+    }
     let mut rep = Report::new("C33", "exploration", &args);
     rep.rule = "random histories (10-34 steps) over 1-4 workers (capacity 2/3/100, heartbeat_timeout 2/3/5/10 s): advance virtual time by 0.3/0.6/1.2 x timeout (back-dating last_heartbeat of every worker), heartbeat, sweep (+ automatic failover of newly unhealthy workers as main.rs does), boundary probes (age = timeout -/+ 5/20/45 ms then sweep), status change to draining/unhealthy, deregister/re-register, drain, rebalance, deploy of 1-3 pipelines (replicas 1-2; affinity none / a worker / a never-registered id) through plan_deploy_group+commit_deploy_group, manual migration to a random worker id through plan_migrate_pipeline+commit_migrate_pipeline. Non-trivial: a history with >=1 sweep-detected unhealthy transition and >=1 placement decision taken while some worker of the universe is unhealthy, draining or deregistered; distinct by history.".into();
     rep.assume("'available' for the pin clause = registered, status ready, pipelines_running (+ pending moves) below max_pipelines; a manual migration names its target explicitly and is exempt from the pin clause");
@@ -619,10 +700,17 @@ fn main() {
     }
     let mocks = Arc::new(mocks);
     let threads = ncpu();
-    let n_cases = args.pick(800usize, 40_000usize) / threads + 1;
+    let n_cases = args.pick(8000usize, 200_000usize) / threads + 1;
     let (rt2, m2) = (rt.clone(), mocks.clone());
     let parts = parallel(threads, args.seed, move |ti, mut rng| {
         let mut out = Partial::default();
+        if ti == 0 {
+            for kind in ["drain", "failover"] {
+                if let Err(p) = catch(std::panic::AssertUnwindSafe(|| scripted_pinned_return(&rt2, &m2, kind, &mut out))) {
+                    out.violation("panic", "panic in a coordinator operation", json!({"panic": p, "site": panic_site(&last_panic_location())}));
+                }
+            }
+        }
         for c in 0..n_cases {
             let tag = format!("t{}c{}", ti, c);
             let r = catch(std::panic::AssertUnwindSafe(|| run_case(&rt2, &m2, &tag, &mut rng, &mut out)));
@@ -639,6 +727,5 @@ fn main() {
     for p in parts {
         rep.merge(p);
     }
-    let _ = ClusterError::NoWorkersAvailable;
     std::process::exit(rep.finish());
 }
